@@ -778,6 +778,63 @@ fn stream_hv() {
     out.flush();
 }
 
+/// An unversioned server must refuse to start over any table with a
+/// version-restricted endpoint, whatever the registration order; when it does
+/// start, every request is routed without a version.
+fn stream_us() {
+    use dsharness::server::*;
+    let mut out = Out::new();
+    let mut rng = Rng::from_env(16);
+    let mut id = 0u64;
+    let n_tables = if is_thorough() { 3000 } else { 300 };
+    let rt = tokio::runtime::Builder::new_multi_thread().worker_threads(2).enable_all().build().unwrap();
+    for i in 0..n_tables {
+        let size = rng.range(1, 6) as usize;
+        // few versioned endpoints, so that "the last one registered is unrestricted" is common
+        let eps = gen_accepted_table(&mut rng, size, if i % 3 == 0 { 0 } else { 30 }, 30);
+        for order in 0..3 {
+            let eps = if order == 0 { eps.clone() } else { permute(&mut rng, &eps) };
+            let mut api = dropshot::ApiDescription::<()>::new();
+            let mut ok = true;
+            for e in &eps {
+                match live_endpoint(e) {
+                    Some(ep) => {
+                        if api.register(ep).is_err() {
+                            ok = false;
+                        }
+                    }
+                    None => ok = false,
+                }
+            }
+            if !ok {
+                continue;
+            }
+            let res = rt.block_on(async {
+                match dropshot::ServerBuilder::new(api, (), discard_log())
+                    .config(dropshot::ConfigDropshot { bind_address: "127.0.0.1:0".parse().unwrap(), ..Default::default() })
+                    .start()
+                {
+                    Ok(server) => {
+                        server.close().await.ok();
+                        "started".to_string()
+                    }
+                    Err(e) => {
+                        let m = format!("{}", e);
+                        if m.contains("unversioned servers cannot have endpoints with specific versions") {
+                            "refused".to_string()
+                        } else {
+                            format!("error:{}", hex(m.as_bytes()))
+                        }
+                    }
+                }
+            });
+            id += 1;
+            out.line(&format!("us {} {} => {}", id, enc_table(&eps), res));
+        }
+    }
+    out.flush();
+}
+
 fn main() {
     quiet_panics();
     let args: Vec<String> = std::env::args().collect();
@@ -787,6 +844,7 @@ fn main() {
         Some("rc") => stream_rc(),
         Some("doc") => stream_doc(),
         Some("pv") => stream_pv(),
+        Some("us") => stream_us(),
         Some("hv") => stream_hv(),
         Some("sv") => stream_sv(args.get(2).map(|s| s.as_str()).unwrap_or("c01")),
         _ => {
